@@ -121,7 +121,7 @@ def main():
                 if f.endswith("_" + tag) or ("_" + tag + "_") in f or f == "inproc_" + tag:
                     p = os.path.join(w, f)
                     shutil.rmtree(p, ignore_errors=True) if os.path.isdir(p) else os.unlink(p)
-        shutil.rmtree(os.path.join(VERIF, "replays"), ignore_errors=True)
+        shutil.rmtree(os.path.join(VERIF, "work", "replays_" + tag), ignore_errors=True)
 
 
 if __name__ == "__main__":
